@@ -93,3 +93,45 @@ Definition c04s_entry : entry := fun inp =>
   | esc :: r => print_str (z_bool esc) r
   | _ => [(-1)%Z]
   end.
+
+(* ------------------------------------------------------------------ *)
+(** C06 entry: the reaction of an endpoint to an arbitrary JSON frame *)
+From Verif Require Import M2.Reply M2.Parse.
+From VerifGen Require Import Tables.
+
+(** [role; pending id (LP); verdict kind (0 undecodable, 1 tags follow); ntags; tags...; frame tree]
+    -> [reply written (0/1); code (LP); pending completed; request handler invoked] *)
+Definition c06_entry : entry := fun inp =>
+  match inp with
+  | role :: r0 =>
+      let '(pend, r1) := get_lp r0 in
+      match r1 with
+      | vk :: nt :: r2 =>
+          let '(tags, r3) := get_lps (Z.to_nat nt) r2 in
+          let '(j, _) := dec_jv 400 r3 in
+          let v2 := (2 <=? role)%Z in
+          let known := fun a => match profile_of (role_profiles role) (str_of a) with Some _ => true | None => false end in
+          let verdict := fun (_ : jv) => if (vk =? 0)%Z then None else Some tags in
+          let vc := fun c => mem_s (str_of c) valid_error_codes in
+          match j with
+          | JArr arr =>
+              let r := react v2 known pend verdict error_class_of_tag vc arr in
+              match parse_message v2 known pend verdict error_class_of_tag vc arr with
+              | PCall _ action =>
+                  (* the protocol layer's dispatch (C03): all handlers are installed, the handler returns a valid response *)
+                  match answer (role_table role) (fun _ => true) (str_of action) OValid with
+                  | (_, Some _) => [0%Z; 0%Z; 0%Z; 1%Z]
+                  | (RError code :: _, None) => List.app (1%Z :: put_lp (z_of_str code)) [0%Z; 0%Z]
+                  | _ => [(-2)%Z]
+                  end
+              | _ =>
+                  List.app (match r_reply r with Some (_, code) => 1%Z :: put_lp (z_of_str code) | None => [0%Z; 0%Z] end)
+                           [bool_z (r_completes r); bool_z (r_request_handler r)]
+              end
+          | JNull => [0%Z; 0%Z; 0%Z; 0%Z]      (* "null" unmarshals into an empty slice: len < 3, no id *)
+          | _ => [0%Z; 0%Z; 0%Z; 0%Z]          (* not an array: json.Unmarshal fails, the frame is dropped *)
+          end
+      | _ => [(-1)%Z]
+      end
+  | _ => [(-1)%Z]
+  end.
